@@ -5,6 +5,7 @@ package actor
 // queue into batches, recording receivers and a trace monitor.
 
 import (
+	"errors"
 	"github.com/anthdm/hollywood/zzrt"
 	"github.com/anthdm/hollywood/zzshim/sync"
 )
@@ -89,6 +90,7 @@ type zzMon struct {
 	recs       []zzRec
 	incs       int
 	crashes    int
+	internal   int // crashes whose panic value was an *InternalError
 	maxCrashes int
 	crashInit  bool // lifecycle handlers may crash (decided per incarnation)
 	crashStop  bool // the Stopped handler may crash too (prop 7: every stop context still becomes done)
@@ -103,6 +105,13 @@ type zzMon struct {
 func (m *zzMon) crash(what string) {
 	m.crashes++
 	zzrt.Assume(m.crashes <= m.maxCrashes)
+	if m.prop == 6 && zzrt.NondetBool("panicsWithInternalError") {
+		// the exported panic value that "does not take the maximum restarts into account": such a restart is not
+		// counted against the budget, and must not disturb the counting of the others either
+		m.internal++
+		zzrt.Reach("panic-with-InternalError")
+		panic(&InternalError{From: "zz", Err: errors.New("zz-crash-" + what)})
+	}
 	panic("zz-crash-" + what)
 }
 
